@@ -144,6 +144,7 @@ fn one_pass<T: Sc, F: Factory<T>>(sc: &Scenario, rep: &mut RunReport, first: boo
     if let Some(p) = &r.build_panic {
         rep.violate(sc, "PANIC", &format!("build@{}", panic_site(p)), p.clone());
     }
+    expect_built(sc, rep, &r.build, r.build_panic.is_some(), "");
     r.run_ops(&sc.ops);
     rep.events = ctl.seq();
     let log = ctl.log();
